@@ -28,6 +28,16 @@ impl Drop for TrP { fn drop(&mut self) { let id = self.id; let first = LEDGER.wi
 pub fn ledger_at_most_once() -> String {
     LEDGER.with(|l| { let l = l.borrow(); let mut d = l.1.clone(); d.sort(); let n = d.len(); d.dedup(); if d.len() == n { "at-most-once".to_string() } else { format!("dropped twice: {:?}", l.1) } })
 }
+/// zero-sized element with a destructor: no identity, so the ledger is a pair of counters
+thread_local! { static ZC: std::cell::Cell<(u32, u32)> = const { std::cell::Cell::new((0, 0)) }; }
+#[derive(Debug)]
+pub struct Zd;
+pub fn zd() -> Zd { ZC.with(|c| { let (n, d) = c.get(); c.set((n + 1, d)); }); Zd }
+impl Drop for Zd { fn drop(&mut self) { ZC.with(|c| { let (n, d) = c.get(); c.set((n, d + 1)); }); } }
+pub fn z_reset() { ZC.with(|c| c.set((0, 0))); }
+pub fn z_counts() -> (u32, u32) { ZC.with(|c| c.get()) }
+pub struct SZ { pub a: Zd, pub b: Zd, pub c: Tr }
+pub struct TZ(pub Zd, pub Zd);
 pub struct SP { pub a: Tr, pub b: TrP, pub c: Tr }
 pub struct TP(pub Tr, pub TrP, pub Tr);
 
@@ -165,6 +175,41 @@ def programs(tier):
     panic_prog("tuple (a, _, c) with a panicking destructor of the ignored element", "(tr(1), trp(2), tr(3))", "konst::destructure!{(a, _, c) = v}", ["a", "c"])
     panic_prog("array [a, _, c] with a panicking destructor of the ignored element", "[trp(1), trp(2), trp(3)]", "konst::destructure!{[a, _, c] = v} std::mem::forget(a); std::mem::forget(c);", [])
     panic_prog("array [a, .., c] with a panicking destructor in the ignored rest", "[trp(1), trp(2), trp(3), trp(4)]", "konst::destructure!{[a, .., c] = v} std::mem::forget(a); std::mem::forget(c);", [])
+    # zero-sized elements with a destructor (counters instead of identities)
+    def zprog(name, make, macro, binds, created, ignored):
+        body = [
+            "ledger_reset(); z_reset();",
+            "let k = cu(|| {",
+            "    let at_stmt;",
+            "    {",
+            f"        let v = {make};",
+            f"        {macro}",
+            "        at_stmt = z_counts().1;",
+            f"        {' '.join(f'let _keep = &{b};' for b in binds)}",
+            "    }",
+            "    format!(\"dropped_at_statement={} final={:?}\", at_stmt, z_counts())",
+            "});",
+            f"out.push(({js(name)}.to_string(), k, \"dropped_at_statement={ignored} final=({created}, {created})\".to_string()));",
+        ]
+        P.append((name, body))
+    for n in range(0, maxlen + 1):
+        make = "[" + ", ".join("zd()" for _ in range(n)) + "]" + (" as [Zd; 0]" if n == 0 else "")
+        names = [f"e{i}" for i in range(n)]
+        zprog(f"zero-sized array len {n} all elements", make, f"konst::destructure!{{[{', '.join(names)}] = v}}", names, n, 0)
+        for pre in range(0, n + 1):
+            for suf in range(0, n - pre + 1):
+                mid = n - pre - suf
+                pn = [f"p{i}" for i in range(pre)]
+                sn = [f"s{i}" for i in range(suf)]
+                zprog(f"zero-sized array len {n}: [{', '.join(pn + ['rest @ ..'] + sn)}]", make, f"konst::destructure!{{[{', '.join(pn + ['rest @ ..'] + sn)}] = v}}", pn + ["rest"] + sn, n, 0)
+                zprog(f"zero-sized array len {n}: [{', '.join(pn + ['..'] + sn)}]", make, f"konst::destructure!{{[{', '.join(pn + ['..'] + sn)}] = v}}", pn + sn, n, mid)
+        for pos in range(n):
+            nm2 = [("_" if i == pos else f"e{i}") for i in range(n)]
+            zprog(f"zero-sized array len {n} with _ at {pos}", make, f"konst::destructure!{{[{', '.join(nm2)}] = v}}", [x for x in nm2 if x != "_"], n, 1)
+    zprog("SZ {a, b, c} zero-sized Drop fields", "SZ { a: zd(), b: zd(), c: tr(1) }", "konst::destructure!{SZ {a, b, c} = v}", ["a", "b", "c"], 2, 0)
+    zprog("SZ {a: _, b, c: _} zero-sized Drop fields", "SZ { a: zd(), b: zd(), c: tr(1) }", "konst::destructure!{SZ {a: _, b, c: _} = v}", ["b"], 2, 1)
+    zprog("TZ(_, b) zero-sized Drop fields", "TZ(zd(), zd())", "konst::destructure!{TZ(_, b) = v}", ["b"], 2, 1)
+    zprog("tuple (a, _, c) of zero-sized Drop values", "(zd(), zd(), zd())", "konst::destructure!{(a, _, c) = v}", ["a", "c"], 3, 1)
     return [p for p in P if p is not None]
 
 
@@ -238,7 +283,7 @@ def run(tier, seed, drv):
     rep["evaluations"] = evals
     rep["distinct_nontrivial"] = sum(1 for n in names.values() if "_" in n or ".." in n or "packed" in n)
     rep["rule"] = "program = one destructure! pattern shape applied to a value whose leaves are drop-tracked Tr{id,payload}; observation = (id,payload) of every bound variable in order, the ids already dropped at the statement following the macro (must be exactly the `_`/`..` matched ones), and the final ledger (every id dropped exactly once); a supported shape that rustc rejects is a violation; non-trivial = patterns with `_`, `..` or packed layout"
-    rep["bounds"] = f"braced structs (path/type form, renamed, `_`, module path, generic, ZST/array/tuple fields, repr(packed), repr(C,packed(2))), tuple structs, tuples of every arity 1..=16 (with `_` at every position up to arity 4), arrays of length 0..={dict(quick=4, thorough=5)[tier]} with every prefix / rest @ .. / suffix split, `..` without binding, `_` at every position, parenthesised sub-patterns; {len(allp)} programs"
+    rep["bounds"] = f"braced structs (path/type form, renamed, `_`, module path, generic, ZST/array/tuple fields, repr(packed), repr(C,packed(2))), tuple structs, tuples of every arity 1..=16 (with `_` at every position up to arity 4), arrays of length 0..={dict(quick=4, thorough=5)[tier]} with every prefix / rest @ .. / suffix split, `..` without binding, `_` at every position, parenthesised sub-patterns; the same array splits and `_` positions over a zero-sized element type with a destructor (created/dropped counters), structs / tuple structs / tuples with zero-sized Drop fields; {len(allp)} programs"
     rep["samples"] = [names[0], names[len(names) // 3], names[len(names) // 2], names[len(names) - 1]]
     rep["extra"] = {"programs": len(allp), "rejected_by_rustc": len(rejected), "disagreements_checked": len(viol)}
     return rep
